@@ -6,7 +6,7 @@ from typing import Any, Dict, List, Optional, Set, Tuple
 from .. import heval, sqlrules, sqltok, witness
 from ..report import AnalysisError, Ctx
 from ..sqlrules import SqlAnalysis, Tmpl, raw_origin
-from ..values import NodeV, Str, Sym
+from ..values import Const, NodeV, Str, Sym
 
 EXPLANATION = (
     "Taint analysis over the string templates of the standard, SQLite and Athena visitors (every handler evaluated by "
@@ -112,8 +112,42 @@ def _kinds_with_quote(langs, kinds: Set[str], q: str, attr: str = "") -> Dict[st
     return out
 
 
+def _mentions_visit_value(v) -> bool:
+    if isinstance(v, Sym):
+        if v.op == "visit":
+            return True
+        return any(_mentions_visit_value(a) for a in v.args if isinstance(a, (Sym, Str, tuple, list)))
+    if isinstance(v, Str):
+        return any(pp[0] in ("dyn", "join") and _mentions_visit_value(pp[1] if pp[0] == "dyn" else pp[2]) for pp in v.parts)
+    if isinstance(v, (tuple, list)):
+        return any(_mentions_visit_value(a) for a in v)
+    return False
+
+
 def _raw_inside(ctx, env, langs, vs, owner_short, t: Tmpl, piece, q: str) -> Tuple[int, int]:
     label = "string literal" if q == "'" else "quoted identifier"
+    if piece[0] == "join" and not (isinstance(piece[2], Sym) and piece[2].op == "visit") and not _mentions_visit_value(piece[2]):
+        # pieces of raw text glued together inside the quotes: every constant part must keep the quotes paired, every raw part is judged
+        # like any other raw text
+        sep, elem = piece[1], piece[2]
+        consts = [sep.v] if isinstance(sep, Const) and isinstance(sep.v, str) else None
+        parts = list(elem.parts) if isinstance(elem, Str) else [("dyn", elem, ())]
+        if consts is None:
+            ctx.fail("R4.traceable-origin", f"{owner_short}|join-separator", f"[{vs}] text glued with a separator of unknown origin inside a {label}", t.where)
+            return 0, 0
+        tot_s = tot_i = 0
+        for pp in parts:
+            if pp[0] == "lit":
+                consts.append(pp[1])
+            elif pp[0] == "dyn":
+                s1, i1 = _raw_inside(ctx, env, langs, vs, owner_short, t, pp, q)
+                tot_s, tot_i = tot_s + s1, tot_i + i1
+            else:
+                return _raw_inside(ctx, env, langs, vs, owner_short, t, ("join", None, Sym("visit", None, None), None), q)
+        bad = [c for c in consts if q in c.replace(q + q, "")]
+        ctx.check(not bad, "R1.string-quote-doubled" if q == "'" else "R2.identifier-quote-free", f"{owner_short}|{t.label}|glue",
+                  f"[{vs}] the constant text {bad} glued between pieces inside a {label} contains an unpaired {q}", t.where)
+        return tot_s, tot_i
     if piece[0] == "join" or (isinstance(piece[1], Sym) and piece[1].op == "visit"):
         ctx.fail("R4.no-sql-inside-quotes", f"{owner_short}|{t.label}", f"[{vs}] the SQL text of a visited child is spliced inside a {label}: `{t.text()[:80]}`",
                  t.where)
